@@ -1171,12 +1171,20 @@ pub fn s_gc_chain(cx: &mut Ctx) {
 /// C06: build / discard / collect soak in tables small enough to be exhausted; histories continue
 /// after the 'Storage is full' panic
 pub fn s_soak(cx: &mut Ctx) {
-    let cases = if cx.thorough { 300 } else { 10 };
-    for _ in 0..cases {
-        let sb = 3 + cx.rng.below(4);
+    let cases = if cx.thorough { 300 } else { 14 };
+    for ci in 0..cases {
+        // the last four quick cases (every tenth thorough one): tables of 1, 2, 4 cells, more buckets than cells
+        let tiny = if cx.thorough { ci % 10 == 9 } else { ci >= 10 };
+        let sb = if tiny { cx.rng.below(3) } else { 3 + cx.rng.below(4) };
         let n = 3 + cx.rng.below(4) as u32;
-        let bb = cx.rng.below(3.min(sb));
+        let bb = if tiny { cx.rng.below(5) } else { cx.rng.below(3.min(sb)) };
         cx_begin!(cx, n, format!("new {} {} {}", sb, bb, cx.rng.below(3)), 1);
+        if cx.reply().starts_with("panic") {
+            // no manager at all (2^0 cells: the terminal does not fit); every later line says so
+            cx.op("var 1".into());
+            cx.ex.begin_case();
+            continue;
+        }
         let rounds = if cx.thorough { 3000 } else { 500 };
         let mut keep: Vec<usize> = vec![];
         for step in 0..rounds {
@@ -1966,6 +1974,37 @@ fn rand_tree(cx: &mut Ctx, budget: u32, nao_only: bool) -> String {
     }
 }
 
+/// a tree with exactly `n` constructor applications (plain constructors only), prefix notation
+fn sized_tree(cx: &mut Ctx, n: u64, out: &mut Vec<String>) {
+    if n <= 1 {
+        out.push("T".into());
+        out.push(cx.rng.below(7).to_string());
+        return;
+    }
+    let k = if n == 2 { 0 } else if n >= 4 { cx.rng.below(5) } else { 1 + cx.rng.below(3) };
+    match k {
+        0 => {
+            out.push("N".into());
+            sized_tree(cx, n - 1, out);
+        }
+        4 => {
+            out.push("I".into());
+            let a = 1 + cx.rng.below(n - 3);
+            let b = 1 + cx.rng.below(n - 2 - a);
+            sized_tree(cx, a, out);
+            sized_tree(cx, b, out);
+            sized_tree(cx, n - 1 - a - b, out);
+        }
+        _ => {
+            out.push(["A", "O", "X"][(k - 1) as usize].into());
+            // mostly balanced, sometimes lopsided
+            let a = if cx.rng.chance(1, 4) { 1 + cx.rng.below(n - 2) } else { (n - 1) / 2 };
+            sized_tree(cx, a, out);
+            sized_tree(cx, n - 1 - a, out);
+        }
+    }
+}
+
 /// C20: eda arena and Signal
 pub fn s_eda(cx: &mut Ctx) {
     cx.ex.begin_case();
@@ -1984,6 +2023,15 @@ pub fn s_eda(cx: &mut Ctx) {
         cx_op!(cx, format!("eda.boxed {}", t));
     }
     cx.samples.push(cx.ex.lines.iter().rev().take(3).cloned().collect());
+    // trees around and beyond 2^16 and 2^17 nodes (arena indices wider than 16 / 17 bits)
+    cx.ex.begin_case();
+    let sizes: &[u64] = if cx.thorough { &[65535, 65536, 65537, 70001, 131071, 131072, 131073, 200_000, 300_001] } else { &[65535, 65536, 65537, 70001] };
+    for &n in sizes {
+        let mut toks = vec![];
+        sized_tree(cx, n, &mut toks);
+        cx_op!(cx, format!("eda.boxed {}", toks.join(" ")));
+    }
+    cx.notes.push(format!("large trees: {:?} nodes", sizes));
     cx.ex.begin_case();
     let b30 = 1u64 << 30;
     let mut idx: Vec<u64> = vec![0, 1, 2, 3, b30 - 3, b30 - 2, b30 - 1, b30, b30 + 1, (1 << 31) - 2, (1 << 31) - 1, 1 << 31, u32::MAX as u64 - 1, u32::MAX as u64];
